@@ -48,6 +48,10 @@ type c19Case struct {
 	// ClosedTransport (client chain): the client is closed before the requests are made: the transport, innermost in the
 	// chain, answers every execution with "closed"; the stages still run around it exactly as their programs say
 	ClosedTransport bool `json:"client_closed_before_requests,omitempty"`
+	// UnsupportedVersion (server message chain): the request arrives with a protocol version the executor does not
+	// support. The version check is part of the core handler, innermost in the chain: the stages run as always, a stage
+	// that substitutes the message (the substitutes are 1.4) gets the core's normal answer, the original gets the rejection.
+	UnsupportedVersion bool `json:"request_version_unsupported,omitempty"`
 }
 
 // registerStages hands the stages to an executor: one Use call per stage, or (SharedList) the first ones through a
@@ -121,7 +125,8 @@ func (r modelRes) String() string {
 }
 
 type model struct {
-	closed bool // the core answers every execution with the closed-connection error
+	unsupported bool // the core rejects the original message (not the substituted ones) for its protocol version
+	closed      bool // the core answers every execution with the closed-connection error
 	progs  []stageProg
 	events []string
 	cores  int
@@ -130,6 +135,9 @@ type model struct {
 func (m *model) run(stage int, msg string, marks []string) modelRes {
 	if stage == len(m.progs) && m.closed {
 		return modelRes{err: net.ErrClosed.Error()}
+	}
+	if stage == len(m.progs) && m.unsupported && !strings.Contains(msg, ">m") {
+		return modelRes{err: "Unsupported protocol version"}
 	}
 	if stage == len(m.progs) {
 		n := m.cores
@@ -283,7 +291,11 @@ func runServerMessage(c c19Case, reqIdx int) ([]string, modelRes) {
 	}, func() { warmUp(exec) })
 	tr := &trace{}
 	ctx := context.WithValue(context.Background(), traceKey{}, tr)
-	resp := exec.HandleRequest(ctx, mkRequest(fmt.Sprintf("r%d", reqIdx)))
+	req := mkRequest(fmt.Sprintf("r%d", reqIdx))
+	if c.UnsupportedVersion {
+		req.Header.ProtocolVersion = kmip.ProtocolVersion{ProtocolVersionMajor: 2, ProtocolVersionMinor: 0}
+	}
+	resp := exec.HandleRequest(ctx, req)
 	return tr.events, respID(resp, nil)
 }
 
@@ -565,7 +577,7 @@ func c19Run(c c19Case) (sig string, err error) {
 		return "chain-panics:" + c.Chain, perr
 	}
 	for r := range outs {
-		m := &model{progs: c.Stages, closed: c.ClosedTransport}
+		m := &model{progs: c.Stages, closed: c.ClosedTransport, unsupported: c.UnsupportedVersion && c.Chain == "server-message"}
 		want := m.run(0, fmt.Sprintf("r%d", r), nil)
 		wantEvents := m.events
 		if c.Chain == "client" {
@@ -641,6 +653,9 @@ func TestC19Chains(t *testing.T) {
 		if c.Chain == "client" {
 			c.Clone = rapid.IntRange(0, 2).Draw(rt, "clone") == 0
 			c.ClosedTransport = rapid.IntRange(0, 4).Draw(rt, "closed") == 0
+		}
+		if c.Chain == "server-message" {
+			c.UnsupportedVersion = rapid.IntRange(0, 3).Draw(rt, "unsupported-version") == 0
 		}
 		n := rapid.IntRange(0, 4).Draw(rt, "stages")
 		c.PreServe = -1
